@@ -892,14 +892,14 @@ class ContentAttrParser(object):
 
     def parse(self):
         try:
-            # Check if the attr name is charset
-            # otherwise return
-            self.data.jumpTo(b"charset")
-            self.data.position += 1
-            self.data.skip()
-            if not self.data.currentByte == b"=":
-                # If there is no = sign keep looking for attrs
-                return None
+            # Find "charset" followed by an = sign
+            while True:
+                self.data.jumpTo(b"charset")
+                self.data.position += 1
+                self.data.skip()
+                if self.data.currentByte == b"=":
+                    break
+                # If there is no = sign keep looking for the next "charset"
             self.data.position += 1
             self.data.skip()
             # Look for an encoding between matching quote marks
@@ -915,7 +915,7 @@ class ContentAttrParser(object):
                 # Unquoted value
                 oldPosition = self.data.position
                 try:
-                    self.data.skipUntil(spaceCharactersBytes)
+                    self.data.skipUntil(spaceCharactersBytes | frozenset([b";"]))
                     return self.data[oldPosition:self.data.position]
                 except StopIteration:
                     # Return the whole remaining value
